@@ -94,9 +94,9 @@ class StateNode():
             states = node["States"]
             self.current_states_node.append(states)
             start_at = node.get("StartAt")
-            if start_at and isinstance(start_at, str):
+            if isinstance(start_at, str):
                 self.current_states_incoming.append([start_at])
-                if start_at not in states:
+                if not start_at or start_at not in states:
                     problems.append(
                         f'StartAt value "{start_at}" not found in ' +
                         f'States field at {path}'
@@ -159,9 +159,9 @@ class StateNode():
 
     def add_next(self, node, path, field, problems):
         transition_to = node.get(field)
-        if transition_to and isinstance(transition_to, str):
+        if isinstance(transition_to, str):
             if len(self.current_states_node) > 0:
-                if transition_to in self.current_states_node[-1]:
+                if transition_to and transition_to in self.current_states_node[-1]:
                     self.current_states_incoming[-1].append(transition_to)
                 else:
                     problems.append(
